@@ -38,7 +38,7 @@ func c10R1(p *core.Prog, r *core.Report) {
 		r.MissingAnchor(rule, "scheme/reg.Reg")
 		return
 	}
-	isRead := func(f *ssa.Function) bool { return f != nil && f.Name() == "referrerListByTag" }
+	isRead := func(f *ssa.Function) bool { return f != nil && canon(f) == "referrerListByTag" }
 	isWrite := func(c ssa.CallInstruction) bool {
 		cal := core.Callee(c)
 		if cal == nil || !(core.IsModMethod(cal, "scheme/reg", "Reg", "ManifestPut") || core.IsModMethod(cal, "scheme/reg", "Reg", "TagDelete")) {
@@ -217,7 +217,7 @@ func c10R2(p *core.Prog, r *core.Report) {
 			rlField = cc.field
 		}
 	}
-	for _, c := range core.CallsTo(put, func(f *types.Func) bool { return core.IsModMethod(f, "scheme/reg", "Reg", "referrerPut") }) {
+	for _, c := range core.CallsTo(put, func(f *types.Func) bool { return f.Pkg() != nil && f.Pkg().Path() == modPath("scheme/reg") && canonObj(f) == "referrerPut" }) {
 		var inval ssa.CallInstruction
 		for _, cc := range calls {
 			if cc.fn == put && cc.method == "Delete" && cc.field == rlField && core.DominatesInstr(cc.c.(ssa.Instruction), c.(ssa.Instruction)) {
